@@ -703,11 +703,17 @@ type pausingSource struct {
 	i     int
 	eof   bool  // the next Read reports a transient EOF
 	soft  error // what a transient interruption looks like (io.EOF or a read time-out); the final one is io.EOF
+	twice bool  // every interruption lasts for two reads in a row
+	again bool
 }
 
 func (p *pausingSource) Read(b []byte) (int, error) {
 	if p.eof {
-		p.eof = false
+		if p.twice && !p.again {
+			p.again = true // one more read finds the source still silent
+		} else {
+			p.eof, p.again = false, false
+		}
 		if p.soft != nil {
 			return 0, p.soft
 		}
@@ -756,12 +762,13 @@ func runTransient(w *tr.Writer, rng *rand.Rand, variant int) {
 	if variant%4 >= 2 {
 		cfg.WaitTimeOnEOFMilliseconds = 0 // retry at once
 	}
+	src.twice = variant%3 == 0
 	if variant%4 == 2 || variant%8 == 5 {
 		src.soft = errors.New("read /dev/ttyACM0: i/o timeout") // the interruptions are read time-outs, not end-of-file
 	}
 	ref := sequentialRef(in, c09Start)
 	ch := make(chan handler.Message, 64)
-	w.Emit(c09Case{"case", ref, 1, fmt.Sprintf("transient-eof log=%v wait=%d timeouts=%v", cfg.SystemLog != nil, cfg.WaitTimeOnEOFMilliseconds, src.soft != nil), []int{64}, len(in), runtime.GOMAXPROCS(0)})
+	w.Emit(c09Case{"case", ref, 1, fmt.Sprintf("transient-eof log=%v wait=%d timeouts=%v twice=%v", cfg.SystemLog != nil, cfg.WaitTimeOnEOFMilliseconds, src.soft != nil, src.twice), []int{64}, len(in), runtime.GOMAXPROCS(0)})
 	base := runtime.NumGoroutine()
 	verifhook.Handler = nil
 	ret := make(chan string, 1)
